@@ -298,7 +298,9 @@ def unpackRHeaderC (msg : Bytes) (off : Nat) : Except Err (RHeader × Nat) :=
         | .ok (ttl, o4) =>
           match u16AtC msg o4 with
           | .error e => .error e
-          | .ok (len, o5) => .ok ({ name := name, typ := typ, cls := cls, ttl := ttl, length := len }, o5)
+          | .ok (len, o5) =>
+            if o5 + len > msg.length then .error .resourceLen  -- Parser.resourceHeader: the body must be inside msg
+            else .ok ({ name := name, typ := typ, cls := cls, ttl := ttl, length := len }, o5)
 
 def unpackResourceC (msg : Bytes) (off : Nat) : Except Err (Resource × Nat) :=
   match unpackRHeaderC msg off with
